@@ -19,7 +19,7 @@ PROP = "C08"
 def validate(ctx, cases, tags, label, prop=PROP, keyfn=None):
     """cases -> TLC verdict; returns number of violating (case, record) pairs"""
     path = os.path.join(common.scratch("sel"), f"cases_{label}.json")
-    envs = [dict(r) for r in sg.RECS]
+    envs = sg.envs()
     tlc.write_json(path, {"recs": envs, "cases": cases})
     r = ctx.tlc("Trace_Selector", "Trace_Selector.cfg", f"{label}: {len(cases)} expressions x {len(envs)} records x 2 engines", env={"TRACE_FILE": path})
     os.remove(path)
